@@ -1,7 +1,7 @@
 #!/bin/bash
 # runs every registered quick (or thorough) check and prints one line per check
 tier="${1:-quick}"
-cd /verif
+cd "$(dirname "$(readlink -f "$0")")/.."
 for id in $(python3 -c "import json;print(' '.join(c['property_id'] for c in json.load(open('MANIFEST.json'))['checks']))"); do
   s=$(date +%s.%N)
   out=$(./check $id $tier 2>&1); rc=$?
